@@ -121,7 +121,9 @@ def gen_inputs(rng, tier):
         inputs.append("".join(rng.choice(WEIRD + list("01 +-*/^()m.e%{}")) for _ in range(rng.randint(1, 30))))
     # boundary operands in every position of every operator: zeros, absolute zero on each scale, percentages, casts of them
     pool = ["0", "0 m", "0 K", "-273.15 °C", "-459.67 °F", "0 °C", "0 °F", "1 m", "2", "1 s", "273.15 K", "(0 K to °C)", "(0 K to °F)",
-            "100 %", "0 %", "1 m/s", "0 m/s", "1 °C", "(1 - 1)", "0.0 kg", "-0", "1 km", "(-273.15 °C to K)", "pi", "(2 - 2) m"]
+            "100 %", "0 %", "1 m/s", "0 m/s", "1 °C", "(1 - 1)", "0.0 kg", "-0", "1 km", "(-273.15 °C to K)", "pi", "(2 - 2) m",
+            # unit spellings in which a unit cancels itself, with explicit powers one and zero
+            "3 m/m^1", "3 km/km^1", "2 N s/s^1 N^1", "4 J/J^1", "3 m^1/m", "3 m*m^-1", "5 s^2/s^2", "2 m^0", "7 m/m", "1 s^1", "6 kg^0 m"]
     for a in pool:
         for b in pool:
             for op in ("+", "-", "*", "/"):
